@@ -1211,3 +1211,92 @@ def err4(run):
             falls = [x for x in err_reg if m.blocks[x]["term"]["k"] == "return"]
             run.check(not falls, "ERR4", "ERR4|main|err-never-returns", m.loc(), "the Err edge cannot fall through to a normal return (status 0)",
                       "on the Err edge main can return normally, i.e. exit status 0 after a failure")
+
+
+def idx0(run, reach):
+    """functions that index a collection parameter with a constant and no length test have a non-emptiness
+    precondition; every call site must establish it (crash class: index out of bounds)"""
+    R = "IDX0"
+    prog = run.prog
+    from rules_tab import value_depends_on
+
+    def len_guarded(f, block, root_pred):
+        """is `block` dominated by a switch whose discriminant depends on len()/is_empty() of the collection?"""
+        for b in f.dominators().get(block, ()):
+            t = f.blocks[b]["term"]
+            if t["k"] != "switch" or b == block:
+                continue
+            dl = op_local(t["discr"])
+            if dl is None:
+                continue
+            # walk back the discriminant's dependencies for a len()/is_empty() call on the collection
+            seen = set()
+            work = [dl]
+            while work:
+                l = work.pop()
+                if l in seen or len(seen) > 40:
+                    continue
+                seen.add(l)
+                for d in f.full_defs(l):
+                    if d[0] == "call":
+                        c = d[2].get("callee") or ""
+                        if re.search(r"::(len|is_empty)$", c) and d[2]["args"] and root_pred(f.origin_op(d[2]["args"][0])):
+                            return True
+                        for a in d[2]["args"]:
+                            al = op_local(a)
+                            if al is not None:
+                                work.append(al)
+                    elif d[3]["k"] == "assign":
+                        from mir import rv_operands
+                        for o in rv_operands(d[3]["rv"]):
+                            al = op_local(o)
+                            if al is not None:
+                                work.append(al)
+        return False
+
+    pre = {}   # fid -> (param index, const index, span)
+    for f in prog.real_fns():
+        for bi, t in f.calls():
+            if (t.get("callee") or "") != "std::ops::Index::index" or len(t["args"]) != 2:
+                continue
+            ci = const_int(t["args"][1])
+            if ci is None or not re.search(r"(Vec<|\[)", t["arg_tys"][0]):
+                continue
+            o = peel(f.origin_op(t["args"][0]))
+            if o[0] != "param":
+                continue
+            pidx = o[1]
+            if len_guarded(f, bi, lambda oo, pidx=pidx: peel(oo) == ("param", pidx)):
+                continue
+            pre.setdefault(f.id, (pidx, ci, t["span"]))
+    run.count("idx0_precondition_functions", len(pre))
+    n = 0
+    for fid, (pidx, ci, span) in sorted(pre.items()):
+        g = prog.fn(fid)
+        sites = 0
+        for f in prog.real_fns():
+            if f.id not in reach and f.id.split("::{closure")[0] not in reach:
+                continue
+            for bi, t in f.calls():
+                tg, _ = prog.call_targets(f, t)
+                direct = fid in tg
+                viaclosure = False
+                if not direct:
+                    # closure passed to Option::map & co: the closure parameter is the payload; accept (non-emptiness of a
+                    # payload is established where the Option is built) -- only direct calls are obligations
+                    continue
+                if pidx - 1 >= len(t["args"]):
+                    continue
+                sites += 1
+                n += 1
+                a = t["args"][pidx - 1]
+                root = peel(f.origin_op(a))
+                def same_root(oo, root=root):
+                    return peel(oo) == root or (root[0] == "multi" and peel(oo)[0] == "multi" and peel(oo)[1] == root[1])
+                ok = len_guarded(f, bi, same_root)
+                key = "IDX0|%s|called-from|%s" % (fid, f.id)
+                run.check(ok, R, key, f.loc(t["span"]),
+                          "%s: the collection passed to %s (which reads element %d without a length test) is known non-empty here" % (f.id, fid.rsplit("::", 1)[-1], ci),
+                          "%s passes `%s` to %s, which reads element %d without a length test; nothing here establishes that it is non-empty: index out of bounds panic" % (
+                              f.id, describe_origin(f, root), fid.rsplit("::", 1)[-1], ci))
+    return n
